@@ -27,7 +27,7 @@ ASSUMPTIONS = [
     "path-typed values are spelled absolute (jsonargparse keeps relative spellings by design, so a config saved into another directory is not expected to re-parse)",
     "fsspec / URL targets are off (default)",
 ]
-PROBES = ["destination-names-collide", "save-ok-in-place-after-edits", "save-refused-overwrite", "save-failed-config-cause", "save-ok-multifile-with-subfiles", "save-ok-reparsed", "fault-in-save", "torn-write", "sweep-site"]
+PROBES = ["save-under-narrow-locale", "destination-names-collide", "save-ok-in-place-after-edits", "save-refused-overwrite", "save-failed-config-cause", "save-ok-multifile-with-subfiles", "save-ok-reparsed", "fault-in-save", "torn-write", "sweep-site"]
 ANCHOR_FILES = ("_core", "_util")
 NO_SHRINK = ("save", "save/*", "parser/opts", "parser/opts/*", "world/dirs")
 SHRINK_DICTS = ("world/files", "world/env", "world/symlinks", "world/dirmodes", "save/pre")
@@ -204,6 +204,13 @@ def generate(rng, tier):
         dn = rng.choice([n + ".tmp", n + ".bak", n + "~", "." + n, n + ".new", n + ".swp", "." + n + ".tmp", n + ".lock", n + ".orig", n + ".part"])
         files.setdefault("out/" + dn, "decoy %s\n" % dn)
     w = {"dirs": dirs, "files": files, "symlinks": symlinks, "cwd": rng.choice(["run", "run", "out", "src"]), "env": {}}
+    if rng.random() < 0.1:
+        # a locale whose encoding cannot represent every string (cp1252 on Windows, ASCII in a bare container): a
+        # value outside it makes the configuration unserialisable INTO THE FILE - which shows only at write time
+        w["locale"] = rng.choice(["ascii", "cp1252", "latin-1"])
+        nonascii = True
+    else:
+        nonascii = rng.random() < 0.05
     if rng.random() < 0.06:
         w["dirmodes"] = {"out": 0o555}
     cwd = w["cwd"]
@@ -247,6 +254,8 @@ def generate(rng, tier):
         if "obj" in feats:
             cand += [{"path": ["obj", "init_args", "n"], "value": rng.randint(100, 199) + 0.0}] * 2
         edits = [copy.deepcopy(x) for x in rng.sample(cand, min(len(cand), rng.randint(1, 3)))]
+    if nonascii:
+        edits.append({"path": ["s"], "value": rng.choice(["caf\u00e9", "\u65e5\u672c", "x\u2192y", "na\u00efve \u20ac"])})
     spc = []
     if "p" in feats and rng.random() < 0.5:
         spc.append("p")
@@ -486,6 +495,8 @@ def execute(sc, ctx):
         ctx.notes["load"] = o.brief()
         return
     STATE.update(parser=p, cfg=o.value)
+    if sc["world"].get("locale"):
+        sim.probe("save-under-narrow-locale")
     if sc.get("collide") and sc["save"].get("multifile"):
         sim.probe("destination-names-collide")
     side = root + ".side"
